@@ -45,7 +45,7 @@ class Traced:
         self.out_tree = jax.tree_util.tree_structure(out_shape)
     self.n_eqns = count_eqns(self.jaxpr.jaxpr)
 
-  def sym_inputs(self, prefix='in', pool=None):
+  def sym_inputs(self, prefix='in', pool=None, maker=None):
     """fresh variables for every input leaf; `pool` shares variables between traces by leaf name"""
     out = []
     for nm, x in zip(self.names, self.flat):
@@ -54,7 +54,7 @@ class Traced:
         out.append(pool[key])
         continue
       clean = ''.join(ch if ch.isalnum() else '_' for ch in nm)
-      v = sym_like(f'{prefix}{clean}', x)
+      v = (maker or sym_like)(f'{prefix}{clean}', x)
       if pool is not None:
         pool[key] = v
       out.append(v)
